@@ -306,6 +306,8 @@ def plan(tier, seed):
         specs.append({"kind": "random", "part": i, "parts": parts, "seed": seed, "tier": tier, "idx": idx}); idx += 1
     for i in range(parts):
         specs.append({"kind": "cpu", "part": i, "parts": parts, "seed": seed, "tier": tier, "idx": idx}); idx += 1
+    for i in range(1 if tier == "quick" else 8):
+        specs.append({"kind": "valgrind", "part": i, "seed": seed, "tier": tier, "idx": idx}); idx += 1
     return specs
 
 
@@ -366,6 +368,27 @@ def run_shard(spec) -> Result:
                 return [[BIG], [1 << 35], [(1 << 36) + 1, 1 << 35]]
             return seeded_partitions(r)
         run_cases(res, cases, parts_for)
+    elif kind == "valgrind":
+        # the scheduler's unsafe sites (Pin::new_unchecked, hand-made waker) and the raw-pointer bus of step() under memcheck
+        from .. import rust
+        cases = []
+        for i in range(60 if tier == "quick" else 400):
+            vs = [(r.random() < 0.3, tuple((r.choice(FULL), r.random() < 0.4) for _s in range(r.randrange(0, 6))))
+                  for _t in range(r.randrange(1, 5))]
+            cases.append(build_case(i, vs, clock0=r.choice((0, 7)), budgets=r.choice(PARTITIONS)))
+        cpu = cpu_jobs(r, 6 if tier == "quick" else 40, tier)
+        outs, rep = rust.run_valgrind("sched", cases + [dict(j, id=1000 + i) for i, j in enumerate(cpu)])
+        if not rep["available"]:
+            res.count("valgrind_not_available")
+        else:
+            res.evaluations += 1
+            res.monitor("valgrind_memcheck", len(cases) + len(cpu))
+            if rep["errors"] or rep.get("rc") not in (0,):
+                res.violation({"clause": "memcheck_error_in_scheduler_or_step"}, {"cases": len(cases), "cpu": len(cpu)}, rep["log"][-800:])
+            elif outs is not None:
+                plain = rust.run("sched", cases)
+                if [o.get("log") for o in outs[:len(cases)]] != [o.get("log") for o in plain]:
+                    res.violation({"clause": "result_differs_under_memcheck"}, {"cases": len(cases)}, "")
     elif kind == "cpu":
         n = (480 if tier == "quick" else 8000) // spec["parts"]
         jobs = cpu_jobs(r, n, tier)
